@@ -45,6 +45,7 @@ import EsbuildModel.Impl.MangleProps
 import EsbuildModel.Impl.JsxText
 import EsbuildModel.Impl.CjsWrapDriver
 import EsbuildModel.Impl.OutPathsDriver
+import EsbuildModel.Impl.StrLex
 
 open EsbuildModel
 
@@ -100,6 +101,7 @@ def dispatch (kernel : String) (args : List String) : String :=
   | "jsxtext" => JsxText.driver args
   | "cjswrap" => CjsWrap.driver args
   | "outpaths" => OutPaths.driver args
+  | "strlex" => StrLex.driver args
   | _ => "bad-kernel"
 
 partial def loop (hin hout : IO.FS.Stream) : IO Unit := do
